@@ -625,8 +625,13 @@ fn main() {
         ),
     );
     write(&dir.join(".cargo/config.toml"), "[net]\noffline = true\n");
-    std::fs::copy(repo_dir.join("Cargo.lock"), dir.join("Cargo.lock"))
-        .unwrap_or_else(|e| internal(&format!("copy Cargo.lock: {e}")));
+    // the repo's lock file pins the cached versions; a bare checkout (git worktree) has none:
+    // fall back to the harness' own lock file
+    let lock = [repo_dir.join("Cargo.lock"), PathBuf::from(concat!(env!("CARGO_MANIFEST_DIR"), "/Cargo.lock"))]
+        .into_iter()
+        .find(|p| p.exists())
+        .unwrap_or_else(|| internal("no Cargo.lock in the repo or next to the harness"));
+    std::fs::copy(&lock, dir.join("Cargo.lock")).unwrap_or_else(|e| internal(&format!("copy {lock:?}: {e}")));
     let repo_abs = std::fs::canonicalize(&repo_dir).unwrap_or(repo_dir.clone());
     for (krate, src) in [
         ("autotrait", &auto_src),
